@@ -8,6 +8,17 @@ META = {
   technique="exhaustive enumeration of a finite domain + property-based testing (rapid) against a reference calendar"),
 }
 
+META["C01"] = dict(
+  text="Model-based stateful property test: generated slice/read/write histories on all 8 element types and both back-ends are compared, after every operation, with an extensional model of views (explicit offset lists) on three observables: whole raw storage (exact write footprint), every live view element by element (visibility through overlapping views), and the caller's index vectors. Exploration: evidence for the generated histories, not a proof.",
+  design_ref="DESIGN.md section 4, C01",
+  note="Trusted: the ~100-line extensional model (viewmodel) and the raw-storage readers in harness/arr. Array extents are bounded (<= 9 per dimension, <= 4 dimensions, depth <= 4).",
+  technique="model-based property testing (rapid, generated operation histories vs extensional reference model)")
+META["C02"] = dict(
+  text="Generated views with forced contiguity classes; every bulk operation and the contiguous fast paths are compared with the row-major element-by-element definition computed on the extensional model, including both directions of the Contiguous()/ReshapeFast/Reshape error conditions and aliasing-vs-copy of reshape and unroll results; integer helpers against arithmetic definitions. Exploration.",
+  design_ref="DESIGN.md section 4, C02",
+  note="Trusted: the extensional model. Aliasing of Unroll is asserted for Go-backed views only (the property states it for those).",
+  technique="property-based testing (rapid) against an extensional reference model; metamorphic fast-path vs general-path agreement")
+
 import os, sys
 sys.path.insert(0, os.path.dirname(os.path.abspath(__file__)))
 from checks_config import CHECKS
